@@ -215,7 +215,7 @@ def run_case(desc, ctx):
     e = relerr(sv**2 / (n - 1), ev, scale=lam_ref[0] if lam_ref[0] > 0 else 1.0)
     ctx.check(e <= 1e-12, "sv_vs_expvar", f"singular_values^2/(N-1) != explained_variance ({e:.3g})", **disc)
 
-    if desc["center"] or cls in ("HilbertEOF", "ExtendedEOF"):
+    if desc["center"] or cls == "ExtendedEOF":  # (ratios only with centring on, as stated; ExtendedEOF re-centres the embedded matrix itself)
         ratio = np.asarray(model.explained_variance_ratio().values, dtype=float)
         if tot > 0:
             e = relerr(ratio, ev / tot, scale=1.0)
